@@ -9,7 +9,12 @@ def kw(**d):
     return tuple(sorted(d.items()))
 
 
-def gen_constraints(rng, seq, allow_custom=True, hard=True):
+SOUND_CUSTOM = ["ForbidWord"]
+ALL_CUSTOM = ["ForbidWord", "ForbidWord", "ForbidWordBadLocal", "ForbidWordNoneLocal", "NoLocations",
+              "LazyHeuristic", "GivingUpHeuristic"]
+
+
+def gen_constraints(rng, seq, allow_custom=True, hard=True, custom_kinds=None):
     n = len(seq)
     cs = []
     k = rng.choice([1, 2, 2, 3, 4])
@@ -42,8 +47,7 @@ def gen_constraints(rng, seq, allow_custom=True, hard=True):
             cs.append(("EnforceChoice", kw(choices=tuple(sorted({rdna(rng, L) for _ in range(3)})), location=loc)))
         elif allow_custom:
             word = rng.choice(["AA", "AC", "GG", "TAT", "CG"])
-            cls = rng.choice(["ForbidWord", "ForbidWord", "ForbidWordBadLocal", "ForbidWordNoneLocal", "NoLocations",
-                              "LazyHeuristic", "GivingUpHeuristic"])
+            cls = rng.choice(custom_kinds or ALL_CUSTOM)
             if cls == "NoLocations":
                 cs.append((cls, kw(word=word)))
             else:
@@ -91,7 +95,7 @@ def gen_settings(rng):
                 stagnation=rng.choice([None, 5, 100]))
 
 
-def gen_problem(rng, with_objectives=False, allow_custom=True):
+def gen_problem(rng, with_objectives=False, allow_custom=True, custom_kinds=None):
     n = rng.choice([18, 24, 30, 36, 45])
     seq = rdna(rng, n, rng.choice([0.3, 0.5, 0.5, 0.7]))
     # seed some breaches
@@ -102,7 +106,7 @@ def gen_problem(rng, with_objectives=False, allow_custom=True):
             i = rng.randint(0, n - len(w))
             s[i:i + len(w)] = w
     seq = "".join(s)
-    cs = gen_constraints(rng, seq, allow_custom=allow_custom)
+    cs = gen_constraints(rng, seq, allow_custom=allow_custom, custom_kinds=custom_kinds)
     os_ = gen_objectives(rng, seq, allow_custom=allow_custom) if with_objectives else []
     return dict(seq=seq, constraints=tuple(cs), objectives=tuple(os_), cfg=gen_settings(rng),
                 np_seed=rng.randint(0, 10**6))
